@@ -1519,6 +1519,67 @@ func (Float).Equal
   ensures float: other.flag == FLOAT_FLAG && finiteF(f) && finiteF(other.AsFloat()) ==> (ret <==> real(f) == real(other.AsFloat()))
   ensures other: other.flag != FLOAT_FLAG ==> !ret
 
+// ==== C22: calendar values are packed exactly and never wrap ================================
+// A Date packs (year + 2^22) in 23 bits, the month in 4 and the day in 5.
+spec fn dateBits(y int, m int, d int) int = (y + 4194304) * 512 + m * 32 + d
+spec fn dateFieldsOk(y int, m int, d int) bool = DateMinYear <= y && y <= DateMaxYear && 0 <= m && m <= 15 && 0 <= d && d <= 31
+
+func (Date).Year
+  props C22
+  assigns nothing
+  ensures ret == ediv(d.bits, 512) - 4194304
+
+func (Date).Month
+  props C22
+  assigns nothing
+  ensures ret == emod(ediv(d.bits, 32), 16)
+
+func (Date).Day
+  props C22
+  assigns nothing
+  ensures ret == emod(d.bits, 32)
+
+// packing is exact, and unpacking is its inverse, as long as the fields fit: "never wraps"
+// means this precondition holds at every call
+func MakeDate
+  props C22
+  requires fits: dateFieldsOk(year, month, day)
+  assigns nothing
+  ensures bits: ret.bits == dateBits(year, month, day)
+  ensures year: ediv(ret.bits, 512) - 4194304 == year
+  ensures month: emod(ediv(ret.bits, 32), 16) == month
+  ensures day: emod(ret.bits, 32) == day
+
+func (*Date).SetYear
+  props C22
+  requires d != nil && DateMinYear <= v && v <= DateMaxYear
+
+func (*Date).SetMonth
+  props C22
+  requires d != nil && 0 <= v && v <= 15
+
+func (*Date).SetDay
+  props C22
+  requires d != nil && 0 <= v && v <= 31
+
+func (*DateTime).Date
+  props C22
+  requires t != nil
+
+func MakeValidatedDate
+  props C22
+  ensures year: year > DateMaxYear || year < DateMinYear ==> isErr(ret1, DateInvalidYearErrorClass)
+  ensures month: DateMinYear <= year && year <= DateMaxYear && (month > 12 || month < 1) ==> isErr(ret1, DateInvalidMonthErrorClass)
+  ensures day: DateMinYear <= year && year <= DateMaxYear && 1 <= month && month <= 12 && (day > 31 || day < 1) ==> isErr(ret1, DateInvalidDayErrorClass)
+  ensures ok: DateMinYear <= year && year <= DateMaxYear && 1 <= month && month <= 12 && 1 <= day && day <= 31 ==> ret1 == Undefined
+
+// spans: the stored month and day counts are the requested ones (no silent truncation)
+func MakeDateSpan
+  props C22
+  assigns nothing
+  ensures months: ret.months == months + 12 * years
+  ensures days: ret.days == days
+
 // ==== C07: fixed-width integers =============================================================
 // (this block is written by /verif/tools/gen_c07_contracts.py)
 // Reference semantics: two's-complement arithmetic modulo 2^bits.  wrapW reduces a mathematical
